@@ -23,41 +23,65 @@ type (
 type Pointer[T any] = real.Pointer[T]
 
 func AddInt32(addr *int32, delta int32) int32 { simrt.Yield(); return real.AddInt32(addr, delta) }
-func LoadInt32(addr *int32) int32 { simrt.Yield(); return real.LoadInt32(addr) }
-func StoreInt32(addr *int32, v int32) { simrt.Yield(); real.StoreInt32(addr, v) }
-func SwapInt32(addr *int32, v int32) int32 { simrt.Yield(); return real.SwapInt32(addr, v) }
-func CompareAndSwapInt32(addr *int32, o, n int32) bool { simrt.Yield(); return real.CompareAndSwapInt32(addr, o, n) }
+func LoadInt32(addr *int32) int32             { simrt.Yield(); return real.LoadInt32(addr) }
+func StoreInt32(addr *int32, v int32)         { simrt.Yield(); real.StoreInt32(addr, v) }
+func SwapInt32(addr *int32, v int32) int32    { simrt.Yield(); return real.SwapInt32(addr, v) }
+func CompareAndSwapInt32(addr *int32, o, n int32) bool {
+	simrt.Yield()
+	return real.CompareAndSwapInt32(addr, o, n)
+}
 func AddInt64(addr *int64, delta int64) int64 { simrt.Yield(); return real.AddInt64(addr, delta) }
-func LoadInt64(addr *int64) int64 { simrt.Yield(); return real.LoadInt64(addr) }
-func StoreInt64(addr *int64, v int64) { simrt.Yield(); real.StoreInt64(addr, v) }
-func SwapInt64(addr *int64, v int64) int64 { simrt.Yield(); return real.SwapInt64(addr, v) }
-func CompareAndSwapInt64(addr *int64, o, n int64) bool { simrt.Yield(); return real.CompareAndSwapInt64(addr, o, n) }
+func LoadInt64(addr *int64) int64             { simrt.Yield(); return real.LoadInt64(addr) }
+func StoreInt64(addr *int64, v int64)         { simrt.Yield(); real.StoreInt64(addr, v) }
+func SwapInt64(addr *int64, v int64) int64    { simrt.Yield(); return real.SwapInt64(addr, v) }
+func CompareAndSwapInt64(addr *int64, o, n int64) bool {
+	simrt.Yield()
+	return real.CompareAndSwapInt64(addr, o, n)
+}
 func AddUint32(addr *uint32, delta uint32) uint32 { simrt.Yield(); return real.AddUint32(addr, delta) }
-func LoadUint32(addr *uint32) uint32 { simrt.Yield(); return real.LoadUint32(addr) }
-func StoreUint32(addr *uint32, v uint32) { simrt.Yield(); real.StoreUint32(addr, v) }
-func SwapUint32(addr *uint32, v uint32) uint32 { simrt.Yield(); return real.SwapUint32(addr, v) }
-func CompareAndSwapUint32(addr *uint32, o, n uint32) bool { simrt.Yield(); return real.CompareAndSwapUint32(addr, o, n) }
+func LoadUint32(addr *uint32) uint32              { simrt.Yield(); return real.LoadUint32(addr) }
+func StoreUint32(addr *uint32, v uint32)          { simrt.Yield(); real.StoreUint32(addr, v) }
+func SwapUint32(addr *uint32, v uint32) uint32    { simrt.Yield(); return real.SwapUint32(addr, v) }
+func CompareAndSwapUint32(addr *uint32, o, n uint32) bool {
+	simrt.Yield()
+	return real.CompareAndSwapUint32(addr, o, n)
+}
 func AddUint64(addr *uint64, delta uint64) uint64 { simrt.Yield(); return real.AddUint64(addr, delta) }
-func LoadUint64(addr *uint64) uint64 { simrt.Yield(); return real.LoadUint64(addr) }
-func StoreUint64(addr *uint64, v uint64) { simrt.Yield(); real.StoreUint64(addr, v) }
-func SwapUint64(addr *uint64, v uint64) uint64 { simrt.Yield(); return real.SwapUint64(addr, v) }
-func CompareAndSwapUint64(addr *uint64, o, n uint64) bool { simrt.Yield(); return real.CompareAndSwapUint64(addr, o, n) }
-func AddUintptr(addr *uintptr, delta uintptr) uintptr { simrt.Yield(); return real.AddUintptr(addr, delta) }
-func LoadUintptr(addr *uintptr) uintptr { simrt.Yield(); return real.LoadUintptr(addr) }
-func StoreUintptr(addr *uintptr, v uintptr) { simrt.Yield(); real.StoreUintptr(addr, v) }
+func LoadUint64(addr *uint64) uint64              { simrt.Yield(); return real.LoadUint64(addr) }
+func StoreUint64(addr *uint64, v uint64)          { simrt.Yield(); real.StoreUint64(addr, v) }
+func SwapUint64(addr *uint64, v uint64) uint64    { simrt.Yield(); return real.SwapUint64(addr, v) }
+func CompareAndSwapUint64(addr *uint64, o, n uint64) bool {
+	simrt.Yield()
+	return real.CompareAndSwapUint64(addr, o, n)
+}
+func AddUintptr(addr *uintptr, delta uintptr) uintptr {
+	simrt.Yield()
+	return real.AddUintptr(addr, delta)
+}
+func LoadUintptr(addr *uintptr) uintptr            { simrt.Yield(); return real.LoadUintptr(addr) }
+func StoreUintptr(addr *uintptr, v uintptr)        { simrt.Yield(); real.StoreUintptr(addr, v) }
 func SwapUintptr(addr *uintptr, v uintptr) uintptr { simrt.Yield(); return real.SwapUintptr(addr, v) }
-func CompareAndSwapUintptr(addr *uintptr, o, n uintptr) bool { simrt.Yield(); return real.CompareAndSwapUintptr(addr, o, n) }
-func AndInt32(addr *int32, m int32) int32 { simrt.Yield(); return real.AndInt32(addr, m) }
-func OrInt32(addr *int32, m int32) int32 { simrt.Yield(); return real.OrInt32(addr, m) }
-func AndInt64(addr *int64, m int64) int64 { simrt.Yield(); return real.AndInt64(addr, m) }
-func OrInt64(addr *int64, m int64) int64 { simrt.Yield(); return real.OrInt64(addr, m) }
-func AndUint32(addr *uint32, m uint32) uint32 { simrt.Yield(); return real.AndUint32(addr, m) }
-func OrUint32(addr *uint32, m uint32) uint32 { simrt.Yield(); return real.OrUint32(addr, m) }
-func AndUint64(addr *uint64, m uint64) uint64 { simrt.Yield(); return real.AndUint64(addr, m) }
-func OrUint64(addr *uint64, m uint64) uint64 { simrt.Yield(); return real.OrUint64(addr, m) }
-func AndUintptr(addr *uintptr, m uintptr) uintptr { simrt.Yield(); return real.AndUintptr(addr, m) }
-func OrUintptr(addr *uintptr, m uintptr) uintptr { simrt.Yield(); return real.OrUintptr(addr, m) }
-func LoadPointer(addr *unsafe.Pointer) unsafe.Pointer { simrt.Yield(); return real.LoadPointer(addr) }
+func CompareAndSwapUintptr(addr *uintptr, o, n uintptr) bool {
+	simrt.Yield()
+	return real.CompareAndSwapUintptr(addr, o, n)
+}
+func AndInt32(addr *int32, m int32) int32                 { simrt.Yield(); return real.AndInt32(addr, m) }
+func OrInt32(addr *int32, m int32) int32                  { simrt.Yield(); return real.OrInt32(addr, m) }
+func AndInt64(addr *int64, m int64) int64                 { simrt.Yield(); return real.AndInt64(addr, m) }
+func OrInt64(addr *int64, m int64) int64                  { simrt.Yield(); return real.OrInt64(addr, m) }
+func AndUint32(addr *uint32, m uint32) uint32             { simrt.Yield(); return real.AndUint32(addr, m) }
+func OrUint32(addr *uint32, m uint32) uint32              { simrt.Yield(); return real.OrUint32(addr, m) }
+func AndUint64(addr *uint64, m uint64) uint64             { simrt.Yield(); return real.AndUint64(addr, m) }
+func OrUint64(addr *uint64, m uint64) uint64              { simrt.Yield(); return real.OrUint64(addr, m) }
+func AndUintptr(addr *uintptr, m uintptr) uintptr         { simrt.Yield(); return real.AndUintptr(addr, m) }
+func OrUintptr(addr *uintptr, m uintptr) uintptr          { simrt.Yield(); return real.OrUintptr(addr, m) }
+func LoadPointer(addr *unsafe.Pointer) unsafe.Pointer     { simrt.Yield(); return real.LoadPointer(addr) }
 func StorePointer(addr *unsafe.Pointer, v unsafe.Pointer) { simrt.Yield(); real.StorePointer(addr, v) }
-func SwapPointer(addr *unsafe.Pointer, v unsafe.Pointer) unsafe.Pointer { simrt.Yield(); return real.SwapPointer(addr, v) }
-func CompareAndSwapPointer(addr *unsafe.Pointer, o, n unsafe.Pointer) bool { simrt.Yield(); return real.CompareAndSwapPointer(addr, o, n) }
+func SwapPointer(addr *unsafe.Pointer, v unsafe.Pointer) unsafe.Pointer {
+	simrt.Yield()
+	return real.SwapPointer(addr, v)
+}
+func CompareAndSwapPointer(addr *unsafe.Pointer, o, n unsafe.Pointer) bool {
+	simrt.Yield()
+	return real.CompareAndSwapPointer(addr, o, n)
+}
